@@ -42,6 +42,7 @@ type world struct {
 func isC(k string) bool  { return k == "M" || k == "O" || k == "A" }
 func isQ(k string) bool  { return k == "Q" || k == "E" }
 func isCh(k string) bool { return k == "CM" || k == "CO" }
+func isCR(k string) bool { return k == "CR" }
 
 func (w *world) pos(i int, f func(string) bool) int {
 	n := 0
@@ -91,6 +92,8 @@ func (w *world) upd(i int) tg.UpdateClass {
 		return &tg.UpdateNewChannelMessage{Message: w.chmsg(i), Pts: w.chpos(i), PtsCount: 1}
 	case "CO":
 		return &tg.UpdateDeleteChannelMessages{ChannelID: chanID, Messages: []int{i}, Pts: w.chpos(i), PtsCount: 1}
+	case "CR":
+		return &tg.UpdateReadChannelInbox{ChannelID: chanID, MaxID: i, Pts: w.chpos(i)}
 	}
 	panic("bad kind " + w.log[i-1])
 }
@@ -120,6 +123,8 @@ func idOf(u tg.UpdateClass) int {
 		if len(x.Messages) == 1 {
 			return x.Messages[0]
 		}
+	case *tg.UpdateReadChannelInbox:
+		return x.MaxID
 	}
 	return 0
 }
@@ -324,7 +329,7 @@ func (r *run) UpdatesGetChannelDifference(ctx context.Context, req *tg.UpdatesGe
 	w := r.w
 	var p []int
 	for i := 1; i <= w.produced; i++ {
-		if isCh(w.log[i-1]) && w.chpos(i) > req.Pts {
+		if (isCh(w.log[i-1]) || isCR(w.log[i-1])) && w.chpos(i) > req.Pts {
 			p = append(p, i)
 		}
 	}
@@ -350,14 +355,18 @@ func (r *run) UpdatesGetChannelDifference(ctx context.Context, req *tg.UpdatesGe
 	np := w.chpos(s[len(s)-1])
 	var msgs []tg.MessageClass
 	var oth []tg.UpdateClass
+	crs := []int{}
 	for _, i := range s {
 		if w.log[i-1] == "CM" {
 			msgs = append(msgs, w.chmsg(i))
 		} else {
 			oth = append(oth, w.upd(i))
+			if isCR(w.log[i-1]) {
+				crs = append(crs, i)
+			}
 		}
 	}
-	r.event(tr.M{"ev": "diff", "k": "ch", "pts": np, "qts": 0, "empty": false})
+	r.event(tr.M{"ev": "diff", "k": "ch", "pts": np, "qts": 0, "empty": false, "cr": crs})
 	return &tg.UpdatesChannelDifference{Final: final, Pts: np, NewMessages: msgs, OtherUpdates: oth}, nil
 }
 
@@ -531,6 +540,8 @@ func (c *client) step(a action) {
 		c.push([]int{a.i}, sq)
 	case "push2":
 		c.push([]int{a.i, a.j}, 0)
+	case "cancel":
+		c.vs.Close()
 	case "affected":
 		_ = c.vs.HandleAffected(0, c.r.w.cpos(a.i), 1)
 	case "chantl":
@@ -602,6 +613,12 @@ func play(out *tr.W, trace int, cs tr.M, crashAt int, final bool, opts world) in
 			r.fuse = r.nev + a.crash
 		} else if crashAt >= 0 {
 			r.fuse = crashAt
+		}
+		if a.a == "restart" {
+			restart()
+			crashed = true
+			out.Emit(c.post())
+			continue
 		}
 		c.step(a)
 		if r.dead || a.crash >= 0 {
